@@ -35,6 +35,7 @@ type EPCase struct {
 	M       MSpec      `json:"m"`
 	CtKind  string     `json:"ct"` // sk | trivial
 	InPlace bool       `json:"inPlace"`
+	Warm    bool       `json:"warm,omitempty"` // the evaluator first computes the product in the other mode
 	Seed    uint64     `json:"seed"`
 }
 
@@ -50,6 +51,7 @@ func genEPParams(t *rapid.T, maxLogN int, fast32 int) (spec h.RLWESpec, levelQ, 
 	used := map[uint64]bool{}
 	var nQ, nP int
 	var qsz []int
+	deep := false
 	switch {
 	case shape >= 10-fast32: // single modulus below 2^29 without P: 32-bit fast path
 		nQ, nP = 1, 0
@@ -57,6 +59,22 @@ func genEPParams(t *rapid.T, maxLogN int, fast32 int) (spec h.RLWESpec, levelQ, 
 		if rapid.IntRange(0, 3).Draw(t, "q32top") == 0 {
 			qsz[0] = 28
 		}
+	case shape == 3 && fast32 >= 3 && rapid.IntRange(0, 2).Draw(t, "deepk") != 2:
+		// long chain of 58..61-bit primes with 2-3 auxiliary primes: the lazy accumulation of the multiple-P path has to
+		// reduce in the middle (QiOverflowMargin/2 is 4 for 61-bit primes, 8 for 60-bit primes)
+		spec.LogN = 4
+		m = spec.NthRoot()
+		maxQ := 8
+		if h.Thorough() {
+			maxQ = 12
+		}
+		nQ = rapid.IntRange(5, maxQ).Draw(t, "deepNQ")
+		nP = rapid.IntRange(2, 3).Draw(t, "deepNP")
+		qsz = make([]int, nQ)
+		for i := range qsz {
+			qsz[i] = rapid.IntRange(58, 61).Draw(t, fmt.Sprintf("deepq%d", i))
+		}
+		deep = true
 	default:
 		nQ = rapid.IntRange(1, 3).Draw(t, "nQ")
 		nP = rapid.IntRange(0, 2).Draw(t, "nP")
@@ -75,7 +93,9 @@ func genEPParams(t *rapid.T, maxLogN int, fast32 int) (spec h.RLWESpec, levelQ, 
 		}
 		psz := make([]int, nP)
 		for i := range psz {
-			if rapid.IntRange(0, 7).Draw(t, fmt.Sprintf("pk%d", i)) == 0 {
+			if deep {
+				psz[i] = rapid.IntRange(59, 61).Draw(t, fmt.Sprintf("deepp%d", i))
+			} else if rapid.IntRange(0, 7).Draw(t, fmt.Sprintf("pk%d", i)) == 0 {
 				psz[i] = rapid.IntRange(minb, 61).Draw(t, fmt.Sprintf("pany%d", i))
 			} else {
 				lo := maxq
@@ -145,6 +165,7 @@ func genEP(t *rapid.T) EPCase {
 	}
 	c.CtKind = []string{"sk", "sk", "sk", "trivial"}[rapid.IntRange(0, 3).Draw(t, "ct")]
 	c.InPlace = rapid.Bool().Draw(t, "inPlace")
+	c.Warm = rapid.Bool().Draw(t, "warm")
 	c.Seed = rapid.Uint64().Draw(t, "seed")
 	return c
 }
@@ -258,40 +279,61 @@ func runEP(c EPCase, rec *h.Rec) error {
 		return h.Failf("C20:harness:fresh-rlwe", "fresh RLWE ciphertext is at distance %.0f from its message (bound %.0f)", d, Ect)
 	}
 
-	// the product
+	// the product(s): ONE evaluator; when c.Warm is set it first computes the same product in the other mode, so that
+	// the drawn mode runs on an evaluator whose buffers had an earlier life
 	ev := rgsw.NewEvaluator(params, nil)
 	ctIn := ct.CopyNew()
 	ctGIn := &rgsw.Ciphertext{Value: [2]rlwe.GadgetCiphertext{*ctG.Value[0].CopyNew(), *ctG.Value[1].CopyNew()}}
-	var out *rlwe.Ciphertext
-	mode := "outofplace"
-	if c.InPlace {
-		mode = "inplace"
-		out = ct
-		ev.ExternalProduct(ct, ctG, ct)
-	} else {
-		out = rlwe.NewCiphertext(params, 1, c.LevelQ)
-		*out.MetaData = *ct.MetaData
-		// dirty receiver: the product must overwrite, not accumulate
-		rng := h.NewSplitMix(c.Seed ^ 0x5bd1)
+	skIn := e.sk.CopyNew()
+	rng := h.NewSplitMix(c.Seed ^ 0x5bd1)
+	product := func(inPlace bool) (*rlwe.Ciphertext, string, error) {
+		op0 := ct.CopyNew()
+		if inPlace {
+			ev.ExternalProduct(op0, ctG, op0)
+			return op0, "inplace", nil
+		}
+		// receiver with a history: allocated at the maximum level, filled, then resized to the level of the product;
+		// the product must overwrite, not accumulate
+		out := rlwe.NewCiphertext(params, 1, params.MaxLevel())
 		for i := range out.Value {
-			for u := 0; u <= c.LevelQ; u++ {
+			for u := range out.Value[i].Coeffs {
 				q := params.Q()[u]
 				for k := range out.Value[i].Coeffs[u] {
 					out.Value[i].Coeffs[u][k] = rng.Uint64() % q
 				}
 			}
 		}
-		ev.ExternalProduct(ct, ctG, out)
-		if !polysEqual(ct, ctIn) {
-			return h.Failf("C20:ExternalProduct:"+path+":outofplace:input-modified", "op0 was modified by an out-of-place product")
+		out.Resize(1, c.LevelQ)
+		*out.MetaData = *ct.MetaData
+		ev.ExternalProduct(op0, ctG, out)
+		if !polysEqual(op0, ctIn) {
+			return nil, "outofplace", h.Failf("C20:ExternalProduct:"+path+":outofplace:input-modified", "op0 was modified by an out-of-place product")
 		}
+		return out, "outofplace", nil
+	}
+	want := h.VecMod(h.NegacyclicMul(g, decIn), Q)
+	var warmDist float64
+	warmMode := ""
+	if c.Warm {
+		w, wm, err := product(!c.InPlace)
+		if err != nil {
+			return err
+		}
+		warmMode = wm
+		warmDist = bigF(h.InfNorm(h.VecCenter(h.VecSub(e.decryptBig(w), want), Q)))
+	}
+	out, mode, err := product(c.InPlace)
+	if err != nil {
+		return err
 	}
 	if !ctG.Value[0].Equal(&ctGIn.Value[0]) || !ctG.Value[1].Equal(&ctGIn.Value[1]) {
 		return h.Failf("C20:ExternalProduct:"+path+":rgsw-operand-modified", "the RGSW operand was modified")
 	}
+	if !e.sk.Equal(skIn) {
+		return h.Failf("C20:harness:secret-key-modified", "the secret key changed during the case")
+	}
 
 	// oracle: Dec(out) - g * Dec(in) is the noise of the two gadget products
-	want := h.VecMod(h.NegacyclicMul(g, decIn), Q)
 	got := e.decryptBig(out)
 	dist := bigF(h.InfNorm(h.VecCenter(h.VecSub(got, want), Q)))
 
@@ -308,6 +350,17 @@ func runEP(c EPCase, rec *h.Rec) error {
 	rec.Classf("mode=%s", mode)
 	rec.Classf("nP=%d/levelP=%d", len(c.Params.P), c.LevelP)
 	rec.Classf("levelQ=%d/%d", c.LevelQ, len(c.Params.Q)-1)
+	if path == "multipleP" {
+		// number of lazy accumulations of externalProductInPlaceMultipleP against its reduction period
+		acc := 2 * gm.rows
+		period := params.QiOverflowMargin(c.LevelQ) >> 1
+		if pp := params.PiOverflowMargin(c.LevelP) >> 1; pp < period {
+			period = pp
+		}
+		if acc > period {
+			rec.Class("multipleP:lazy-reduction-mid-loop")
+		}
+	}
 	rec.Classf("w=%s", wClass(c.W))
 	rec.Classf("g=%s", c.G.class())
 	rec.Classf("m=%s", c.M.Kind)
@@ -324,6 +377,15 @@ func runEP(c EPCase, rec *h.Rec) error {
 	rec.Note("log2_bound", math.Log2(bound+1))
 	rec.Note("log2_Q", math.Log2(QF))
 
+	if c.Warm {
+		rec.Class("evaluator=reused")
+		if warmDist > bound && dist <= bound {
+			// the first product of the evaluator is the wrong one: report it under its own mode
+			dist, mode = warmDist, warmMode
+		} else if dist > bound && warmDist <= bound {
+			mode += ":reused-evaluator"
+		}
+	}
 	if dist > bound {
 		msg := fmt.Sprintf("N=%d path=%s %s levelQ=%d levelP=%d w=%d g=%s: |Dec(out) - g*Dec(in)| = 2^%.2f exceeds the decomposition bound 2^%.2f (Q=2^%.1f)",
 			n, path, mode, c.LevelQ, c.LevelP, c.W, c.G.class(), math.Log2(dist), math.Log2(bound+1), math.Log2(QF))
